@@ -25,7 +25,11 @@ Inductive obs :=
 | OW (rid : nat) (k : nat) (seq : N)   (* data frame written *)
 | OK (seq : N)                         (* ACK written for an incoming data frame *)
 | OE (rid : nat) (o : outcome)         (* request ended *)
-| OL.                                  (* app.connection_lost *)
+| OL                                   (* app.connection_lost *)
+(* ghost observations (not visible from outside; they make the lock discipline part of the trace) *)
+| GIssue (rid : nat) (blocking : bool) (nfrags : nat)
+| GBlkAcq (rid : nat) | GBlkWait (rid : nat) | GBlkRel (rid : nat) | GBlkDrop (rid : nat)
+| GMsgAcq (rid : nat) | GMsgWait (rid : nat) | GMsgRel (rid : nat) | GMsgDrop (rid : nat).
 
 Record state := {
   now : N;
@@ -39,13 +43,15 @@ Record state := {
   app_attached : bool;
   reset_in_progress : bool;
   rx_seq : N;                      (* harness convention: packet seq of the next incoming data frame *)
+  msg_next : nat;                  (* ghost: index of the next fragment of the message run in progress *)
+  tbl : list (nat * (bool * nat)); (* ghost: static attributes (blocking, nfrags) of every issued request *)
   log : list obs                   (* newest first *)
 }.
 
 Definition init : state :=
   {| now := 0; reqs := []; block_holder := None; block_q := []; msg_holder := None; msg_q := [];
      pack_seq := 0; ack_owner := None; uart_present := true; transport_open := true; app_attached := true;
-     reset_in_progress := false; rx_seq := 0; log := [] |}.
+     reset_in_progress := false; rx_seq := 0; msg_next := 0; tbl := []; log := [] |}.
 
 Inductive event :=
 | EIssue (rid : nat) (cls : N) (blocking : bool) (nfrags : nat) (timeout : N)
@@ -61,28 +67,28 @@ Definition set_log (s : state) (l : list obs) : state :=
   {| now := now s; reqs := reqs s; block_holder := block_holder s; block_q := block_q s; msg_holder := msg_holder s;
      msg_q := msg_q s; pack_seq := pack_seq s; ack_owner := ack_owner s; uart_present := uart_present s;
      transport_open := transport_open s; app_attached := app_attached s; reset_in_progress := reset_in_progress s;
-     rx_seq := rx_seq s; log := l |}.
+     rx_seq := rx_seq s; msg_next := msg_next s; tbl := tbl s; log := l |}.
 Definition emit (s : state) (o : obs) : state := set_log s (o :: log s).
 Definition set_reqs (s : state) (rs : list req) : state :=
   {| now := now s; reqs := rs; block_holder := block_holder s; block_q := block_q s; msg_holder := msg_holder s;
      msg_q := msg_q s; pack_seq := pack_seq s; ack_owner := ack_owner s; uart_present := uart_present s;
      transport_open := transport_open s; app_attached := app_attached s; reset_in_progress := reset_in_progress s;
-     rx_seq := rx_seq s; log := log s |}.
+     rx_seq := rx_seq s; msg_next := msg_next s; tbl := tbl s; log := log s |}.
 Definition set_block (s : state) (h : option nat) (q : list nat) : state :=
   {| now := now s; reqs := reqs s; block_holder := h; block_q := q; msg_holder := msg_holder s;
      msg_q := msg_q s; pack_seq := pack_seq s; ack_owner := ack_owner s; uart_present := uart_present s;
      transport_open := transport_open s; app_attached := app_attached s; reset_in_progress := reset_in_progress s;
-     rx_seq := rx_seq s; log := log s |}.
+     rx_seq := rx_seq s; msg_next := msg_next s; tbl := tbl s; log := log s |}.
 Definition set_msg (s : state) (h : option nat) (q : list nat) : state :=
   {| now := now s; reqs := reqs s; block_holder := block_holder s; block_q := block_q s; msg_holder := h;
      msg_q := q; pack_seq := pack_seq s; ack_owner := ack_owner s; uart_present := uart_present s;
      transport_open := transport_open s; app_attached := app_attached s; reset_in_progress := reset_in_progress s;
-     rx_seq := rx_seq s; log := log s |}.
+     rx_seq := rx_seq s; msg_next := msg_next s; tbl := tbl s; log := log s |}.
 Definition set_link (s : state) (ps : N) (ao : option nat) (up tr app rst : bool) (rx : N) (t : N) : state :=
   {| now := t; reqs := reqs s; block_holder := block_holder s; block_q := block_q s; msg_holder := msg_holder s;
      msg_q := msg_q s; pack_seq := ps; ack_owner := ao; uart_present := up;
      transport_open := tr; app_attached := app; reset_in_progress := rst;
-     rx_seq := rx; log := log s |}.
+     rx_seq := rx; msg_next := msg_next s; tbl := tbl s; log := log s |}.
 
 Definition get (s : state) (rid : nat) : option req := find (fun r => (r_id r =? rid)%nat) (reqs s).
 Definition upd_req (r : req) (p : phase) (f : fut) : req :=
@@ -98,90 +104,121 @@ Definition set_fut (s : state) (rid : nat) (f : fut) : state :=
 Definition next_seq (s : N) : N := s mod 3 + 1.
 Definition is_done (r : req) : bool := match r_phase r with PDone _ => true | _ => false end.
 
-(* ---- the coroutine steps; [fuel] bounds the chains of lock hand-overs (each hand-over removes a queue entry) ---- *)
+(* ---- ghost-field updates ---- *)
+Definition set_ghost (s : state) (mn : nat) (tb : list (nat * (bool * nat))) : state :=
+  {| now := now s; reqs := reqs s; block_holder := block_holder s; block_q := block_q s; msg_holder := msg_holder s;
+     msg_q := msg_q s; pack_seq := pack_seq s; ack_owner := ack_owner s; uart_present := uart_present s;
+     transport_open := transport_open s; app_attached := app_attached s; reset_in_progress := reset_in_progress s;
+     rx_seq := rx_seq s; msg_next := mn; tbl := tb; log := log s |}.
 
-(* uart.send for fragment k of request rid, which holds the message lock *)
-Definition do_write (s : state) (rid k : nat) : state :=
+Definition lookup (s : state) (rid : nat) : option (bool * nat) :=
+  match find (fun e => (fst e =? rid)%nat) (tbl s) with Some e => Some (snd e) | None => None end.
+Definition holds_msg (s : state) (rid : nat) : bool := match msg_holder s with Some h => (h =? rid)%nat | None => false end.
+Definition holds_blk (s : state) (rid : nat) : bool := match block_holder s with Some h => (h =? rid)%nat | None => false end.
+Definition remove (x : nat) (l : list nat) : list nat := filter (fun y => negb (y =? x)%nat) l.
+
+(* ---- lock primitives (asyncio.Lock, FIFO): every state change is paired with its ghost observation ---- *)
+Definition blk_try (s : state) (rid : nat) : state * bool :=
+  match block_holder s, block_q s with
+  | None, [] => (emit (set_block s (Some rid) []) (GBlkAcq rid), true)
+  | _, _ => (emit (set_block s (block_holder s) (block_q s ++ [rid])) (GBlkWait rid), false)
+  end.
+Definition blk_rel (s : state) (rid : nat) : state * option nat :=
+  if holds_blk s rid then
+    match block_q s with
+    | [] => (emit (set_block s None []) (GBlkRel rid), None)
+    | n :: q => (emit (set_block s (Some n) q) (GBlkRel rid), Some n)
+    end
+  else (s, None).
+Definition blk_drop (s : state) (rid : nat) : state :=
+  if existsb (fun x => (x =? rid)%nat) (block_q s)
+  then emit (set_block s (block_holder s) (remove rid (block_q s))) (GBlkDrop rid) else s.
+
+Definition msg_try (s : state) (rid : nat) : state * bool :=
+  match msg_holder s, msg_q s with
+  | None, [] => (emit (set_ghost (set_msg s (Some rid) []) 0 (tbl s)) (GMsgAcq rid), true)
+  | _, _ => (emit (set_msg s (msg_holder s) (msg_q s ++ [rid])) (GMsgWait rid), false)
+  end.
+Definition msg_rel (s : state) (rid : nat) : state * option nat :=
+  if holds_msg s rid then
+    match msg_q s with
+    | [] => (emit (set_msg s None []) (GMsgRel rid), None)
+    | n :: q => (emit (set_ghost (set_msg s (Some n) q) 0 (tbl s)) (GMsgRel rid), Some n)
+    end
+  else (s, None).
+Definition msg_drop (s : state) (rid : nat) : state :=
+  if existsb (fun x => (x =? rid)%nat) (msg_q s)
+  then emit (set_msg s (msg_holder s) (remove rid (msg_q s))) (GMsgDrop rid) else s.
+
+(* uart.send for the next fragment of request rid.  The guard (rid holds the message lock, and the blocking lock
+   if it is a blocking request, and has fragments left) always holds in the real system: it makes the lock
+   discipline explicit so that it can be proved from the model's own text. *)
+Definition may_write (s : state) (rid : nat) : bool :=
+  match lookup s rid with
+  | Some (blocking, nfrags) => holds_msg s rid && (negb blocking || holds_blk s rid) && (msg_next s <? nfrags)%nat
+  | None => false
+  end.
+
+Definition do_write (s : state) (rid : nat) : state :=
+  let k := msg_next s in
   if transport_open s then
-    let s1 := emit s (OW rid k (pack_seq s)) in
+    let s1 := emit (set_ghost s (S k) (tbl s)) (OW rid k (pack_seq s)) in
     let s2 := set_link s1 (pack_seq s1) (Some rid) (uart_present s1) (transport_open s1) (app_attached s1)
                        (reset_in_progress s1) (rx_seq s1) (now s1) in
     set_phase s2 rid (PAwaitAck k (now s + ack_timeout_ms))
-  else set_phase s rid (PAwaitAck k (now s))    (* nothing written: the send returns at once (deadline = now) *)
+  else set_phase (set_ghost s (S k) (tbl s)) rid (PAwaitAck k (now s))   (* nothing written: the send returns at once *)
 .
 
-(* the request ends: log, release what it holds (handled by the callers), its future is cancelled by `finally` *)
+(* the request ends: its future is cancelled by `finally` if still pending *)
 Definition finish (s : state) (rid : nat) (o : outcome) : state :=
   match get s rid with
   | Some r => emit (put s (upd_req r (PDone o) (match r_fut r with FPending => FCancelled | f => f end))) (OE rid o)
   | None => s
   end.
 
+(* work items: (rid, tag): 0 = enter message stage, 1 = start next fragment, 2 = fragment done,
+   3 = release message lock, 4 = release blocking lock *)
+Definition act (s : state) (rid tag : nat) : state * list (nat * nat) * list (nat * nat) :=
+  (* returns (state, items to run next (front), items to run after the current task's continuation (back)) *)
+  match get s rid with
+  | None => (s, [], [])
+  | Some r =>
+    match tag with
+    | 0%nat => let '(s1, got) := msg_try s rid in
+               if got then (s1, [(rid, 1%nat)], []) else (set_phase s1 rid PQMsg, [], [])
+    | 1%nat => if negb (uart_present s) then (finish s rid ORuntime, [(rid, 3%nat); (rid, 4%nat)], [])
+               else if may_write s rid then
+                 let s1 := do_write s rid in
+                 if transport_open s then (s1, [], []) else (s1, [(rid, 2%nat)], [])
+               else (s, [], [])
+    | 2%nat => match r_phase r with
+               | PAwaitAck k _ =>
+                   if (S k <? r_nfrags r)%nat then (s, [(rid, 1%nat)], [])
+                   else
+                     let '(s0, nxt) := msg_rel s rid in
+                     let back := match nxt with Some n => [(n, 1%nat)] | None => [] end in
+                     match r_fut r with
+                     | FGot => (finish s0 rid ORsp, [(rid, 4%nat)], back)
+                     | FCancelled => (finish s0 rid OCancelled, [(rid, 4%nat)], back)
+                     | FPending => (set_phase s0 rid (PAwaitRsp (now s + r_timeout r)), [], back)
+                     end
+               | _ => (s, [], [])
+               end
+    | 3%nat => let '(s0, nxt) := msg_rel s rid in
+               (s0, [], match nxt with Some n => [(n, 1%nat)] | None => [] end)
+    | _ => let '(s0, nxt) := blk_rel s rid in
+           (s0, [], match nxt with Some n => [(n, 0%nat)] | None => [] end)
+    end
+  end.
+
 Fixpoint run (fuel : nat) (s : state) (work : list (nat * nat)) : state :=
-  (* work items: (rid, tag): tag 0 = "enter message stage", 1 = "start fragment 0", 2 = "fragment done",
-     3 = "release message lock", 4 = "release blocking lock" *)
   match fuel with
   | O => s
   | S fuel =>
-    match work with
-    | [] => s
-    | (rid, tag) :: rest =>
-      match get s rid with
-      | None => run fuel s rest
-      | Some r =>
-        match tag with
-        | 0%nat => (* enter message stage *)
-            match msg_holder s, msg_q s with
-            | None, [] => run fuel (set_msg s (Some rid) []) ((rid, 1%nat) :: rest)
-            | _, _ => run fuel (set_phase (set_msg s (msg_holder s) (msg_q s ++ [rid])) rid PQMsg) rest
-            end
-        | 1%nat => (* start next fragment: _send_to_uart *)
-            let k := match r_phase r with PAwaitAck k _ => S k | _ => O end in
-            if negb (uart_present s) then
-              (* RuntimeError: leaves the message lock and the blocking lock *)
-              run fuel (finish s rid ORuntime) ((rid, 3%nat) :: (rid, 4%nat) :: rest)
-            else
-              let s1 := do_write s rid k in
-              if transport_open s then run fuel s1 rest
-              else run fuel s1 ((rid, 2%nat) :: rest)
-        | 2%nat => (* fragment done (acked / expired / not written) *)
-            match r_phase r with
-            | PAwaitAck k _ =>
-                if (S k <? r_nfrags r)%nat then run fuel s ((rid, 1%nat) :: rest)
-                else
-                  (* last fragment: release the message lock, then wait for the response *)
-                  let s1 := match r_fut r with
-                            | FGot => finish s rid ORsp
-                            | FCancelled => finish s rid OCancelled
-                            | FPending => set_phase s rid (PAwaitRsp (now s + r_timeout r))
-                            end in
-                  let rel := match r_fut r with FPending => [] | _ => [(rid, 4%nat)] end in
-                  run fuel s1 ((rid, 3%nat) :: rel ++ rest)
-            | _ => run fuel s rest
-            end
-        | 3%nat => (* release message lock *)
-            match msg_holder s with
-            | Some h => if (h =? rid)%nat then
-                          match msg_q s with
-                          | [] => run fuel (set_msg s None []) rest
-                          | n :: q => run fuel (set_msg s (Some n) q) (rest ++ [(n, 1%nat)])
-                          end
-                        else run fuel s rest
-            | None => run fuel s rest
-            end
-        | _ => (* release blocking lock *)
-            match block_holder s with
-            | Some h => if (h =? rid)%nat then
-                          match block_q s with
-                          | [] => run fuel (set_block s None []) rest
-                          | n :: q => run fuel (set_block s (Some n) q) (rest ++ [(n, 0%nat)])
-                          end
-                        else run fuel s rest
-            | None => run fuel s rest
-            end
-        end
+      match work with
+      | [] => s
+      | (rid, tag) :: rest => let '(s1, front, back) := act s rid tag in run fuel s1 (front ++ rest ++ back)
       end
-    end
   end.
 
 Definition FUEL (s : state) : nat := (10 + 8 * length (reqs s))%nat.
@@ -194,15 +231,11 @@ Definition issue (s : state) (rid : nat) (cls : N) (blocking : bool) (nfrags : n
   if negb (uart_present s) then
     emit (set_reqs s (reqs s ++ [upd_req r0 (PDone ORuntime) FCancelled])) (OE rid ORuntime)
   else
-    let s1 := set_reqs s (reqs s ++ [r0]) in
+    let s1 := emit (set_ghost (set_reqs s (reqs s ++ [r0])) (msg_next s) (tbl s ++ [(rid, (blocking, nfrags))])) (GIssue rid blocking nfrags) in
     if blocking then
-      match block_holder s1, block_q s1 with
-      | None, [] => settle (set_block s1 (Some rid) []) [(rid, 0%nat)]
-      | _, _ => set_phase (set_block s1 (block_holder s1) (block_q s1 ++ [rid])) rid PQBlock
-      end
+      let '(s2, got) := blk_try s1 rid in
+      if got then settle s2 [(rid, 0%nat)] else set_phase s2 rid PQBlock
     else settle s1 [(rid, 0%nat)].
-
-Definition holds_msg (s : state) (rid : nat) : bool := match msg_holder s with Some h => (h =? rid)%nat | None => false end.
 
 Definition rx_ack (s : state) (n : N) : state :=
   if n =? pack_seq s then
@@ -277,16 +310,14 @@ Fixpoint tick_loop (fuel : nat) (s : state) (target : N) : state :=
   end.
 Definition tick (s : state) (dt : N) : state := tick_loop (4 + 4 * length (reqs s)) s (now s + dt).
 
-Definition remove (x : nat) (l : list nat) : list nat := filter (fun y => negb (y =? x)%nat) l.
-
 Definition cancel (s : state) (rid : nat) : state :=
   match get s rid with
   | None => s
   | Some r =>
       match r_phase r with
       | PDone _ => s
-      | PQBlock => finish (set_block s (block_holder s) (remove rid (block_q s))) rid OCancelled
-      | PQMsg => settle (finish (set_msg s (msg_holder s) (remove rid (msg_q s))) rid OCancelled) [(rid, 4%nat)]
+      | PQBlock => finish (blk_drop s rid) rid OCancelled
+      | PQMsg => settle (finish (msg_drop s rid) rid OCancelled) [(rid, 4%nat)]
       | PAwaitAck _ _ => settle (finish s rid OCancelled) [(rid, 3%nat); (rid, 4%nat)]
       | PAwaitRsp _ => settle (finish s rid OCancelled) [(rid, 4%nat)]
       end
